@@ -25,12 +25,109 @@ def special_contexts(ttl, step):
     return out
 
 
+# ------------------------------------------------------------------ DB -> scheduler pipeline
+# The scheduler decides on a context that the replicated DB computed from reports; "onto a live NodeHost that hosts no
+# replica of that shard" depends on nodeHostSpec.Shards = the NodeHost's own report + what the VIEW says (syncShardInfo).
+# These contexts come out of the REAL DB (db engine) fed with report sequences in which a member's NodeHost stops listing
+# the shard (restart with an empty disk) while the view still has it as a member, times out and must be replaced.
+def gen_pipeline_trace(rng, ttl, step):
+    import dbgen
+    w = dbgen.World(rng, nhosts=rng.randint(4, 6), nshards=rng.randint(1, 2))
+    ops = w.shard_ops() + dbgen.ticks(1)
+
+    def full(a, drop=()):
+        infos, ids = [], []
+        for s, h in sorted(w.hist.items()):
+            v, m = h[-1]
+            for rid, ad in sorted(m.items()):
+                if ad == a and s not in drop:
+                    infos.append(dict(shard=s, replica=rid, leader=False, cci=v, incomplete=False, pending=False, members=sorted(m.items())))
+                    ids.append(s)
+        return dict(addr=a, rpc=w.rpc[a], region=w.region[a], plog_incl=rng.random() < 0.5, plog=[], shard_ids=ids, infos=infos)
+    order = list(w.hosts)
+    rng.shuffle(order)
+    for a in order:
+        ops.append(("R", full(a)))
+    ops.append(("LC",))
+    s = rng.choice(sorted(w.hist))
+    victim = rng.choice(sorted(w.hist[s][-1][1].values()))          # address of a member of shard s
+    silent = rng.sample([a for a in w.hosts if a != victim], rng.choice([0, 0, 1]))
+    nticks = ttl // step + rng.choice([1, 1, 2, 3])
+    for t in range(nticks + rng.randint(1, 3)):
+        ops += dbgen.ticks(1)
+        rep = [a for a in w.hosts if a not in silent]
+        rng.shuffle(rep)
+        if rng.random() < 0.6:                                       # the victim's NodeHost is the most recent reporter
+            rep = [a for a in rep if a != victim] + [victim]
+        for a in rep:
+            if rng.random() < 0.25 and a != victim:
+                continue
+            ops.append(("R", full(a, drop=(s,) if a == victim else ())))
+            if t >= nticks - 1:
+                ops.append(("LC",))
+    ops.append(("LC",))
+    return ops
+
+
+def db_json_to_ctx(raw, rng, tag):
+    """SCHEDULER_CONTEXT answer of the real DB -> context dict of the sched engine"""
+    import dbengine
+    if not raw or not raw.startswith("ok json"):
+        return None
+    c = json.loads(raw.split(" ", 3)[3])
+    sid = dbengine.sid
+    defs = [(int(k), sid("app", v.get("app_name")), [int(x) for x in (v.get("members") or [])]) for k, v in sorted((c.get("Shards") or {}).items(), key=lambda kv: int(kv[0]))]
+    si = c.get("ShardImage") or {}
+    view = []
+    for k, sh in sorted((si.get("Shards") or {}).items(), key=lambda kv: int(kv[0])):
+        view.append(dict(id=int(k), cci=int(sh.get("ConfigChangeIndex") or 0), reps=[
+            (int(rk), sid("a", r.get("Address")), int(r.get("Tick") or 0), int(r.get("FirstObserved") or 0))
+            for rk, r in sorted((sh.get("Replicas") or {}).items(), key=lambda kv: int(kv[0]))]))
+    hosts = []
+    for k, h in sorted(((c.get("NodeHostImage") or {}).get("Nodehosts") or {}).items()):
+        hosts.append(dict(addr=sid("a", k), region=sid("g", h.get("Region")), tick=int(h.get("Tick") or 0),
+                          plog=[(int(p.get("shard_id") or 0), int(p.get("replica_id") or 0)) for p in (h.get("PersistentLog") or [])],
+                          shards=sorted(int(x) for x in (h.get("Shards") or {}).keys())))
+    kill = [(int(k.get("ShardID") or 0), int(k.get("ReplicaID") or 0), sid("a", k.get("Address"))) for k in (si.get("ReplicasToKill") or [])]
+    if any(d[1] in (0, dbengine.UNK) for d in defs) or not view:
+        return None
+    return dict(tick=int(c.get("Tick") or 0), defs=defs, view=view, hosts=hosts, kill=kill,
+                ints=[rng.randrange(0, 1 << 30) for _ in range(4)], u64s=[70000 + rng.randrange(100000) for _ in range(3)], json=1, tag=tag)
+
+
+def pipeline_contexts(ck, ntraces, ttl, step):
+    import dbengine
+    deng = dbengine.Engine(ck)
+    if not deng.build():
+        return None
+    traces = [gen_pipeline_trace(ck.rng, ttl, step) for _ in range(ntraces)]
+    res = deng.run_impl(traces, tag="c02pipe", with_replicas=False)
+    if res is None:
+        return None
+    out, seen = [], set()
+    for ti, ops in enumerate(traces):
+        for oi, op in enumerate(ops):
+            if op[0] != "LC":
+                continue
+            c = db_json_to_ctx(res[ti]["obs"]["A"].get(oi, ""), ck.rng, "pipe:t%d:op%d" % (ti, oi))
+            if c is None:
+                continue
+            key = se.ctx_line(dict(c, ints=[], u64s=[]))
+            if key in seen:
+                continue
+            seen.add(key)
+            c["db_trace"] = dbengine.trace_to_json([o for o in ops[:oi + 1] if o[0] != "LC"])   # the commands that produced this context (replay)
+            out.append(c)
+    return out
+
+
 def run(ck):
     ck.cov["rule"] = ("one-shard contexts: every multiset of <=5 member kinds out of {healthy, healthy exactly ttl ago, waiting, failed x NodeHost "
                       "{unknown, live no log, live+log of another replica, silent ttl+step, live+log}} x 9 spare-NodeHost patterns (none / live same or "
                       "other region / gaps ttl-step, ttl, ttl+step / already hosting / unknown-region) x 2 region patterns x defined size in "
                       "{members-1 (surplus member), members} (quick: every multiset with a healthy majority, a PRNG sample of the others); plus PRNG contexts with 1..4 shards sharing 3..8 "
-                      "NodeHosts, kill lists, undefined shards; scripted random source incl. id 0 and an id collision. "
+                      "NodeHosts, kill lists, undefined shards; scripted random source incl. id 0 and an id collision; plus contexts computed by the REAL DB "
+                      "(db engine) from report sequences where a member's NodeHost stops listing the shard and the member must be replaced (DB -> scheduler pipeline). "
                       "Non-trivial = the round produced a request, an error or a panic; distinct by md5 of the context line.")
     import time
     t0 = time.time()
@@ -51,6 +148,12 @@ def run(ck):
         one, full = se.gen_one_shard(ck, eng.ttl, eng.step, 5, 10000 if quick else 10 ** 9, kinds=KINDS, prefer=maj)
         ctxs += one
         ctxs += [se.gen_random_ctx(ck.rng, eng.ttl, eng.step) for _ in range(1500 if quick else 30000)]
+        pipe = pipeline_contexts(ck, 60 if quick else 1500, eng.ttl, eng.step)
+        if pipe is None:
+            return
+        ck.cov["pipeline_contexts"] = ("%d distinct scheduler contexts computed by the REAL DB from report sequences in which the NodeHost of a member "
+                                       "stops listing the shard, the member times out and the NodeHost is (often) the most recent reporter" % len(pipe))
+        ctxs += pipe
 
     def monitor(v, reqs, c):
         bad = se.mon_c02(v, reqs, fresh_ids=(c.get("tag") != "special:id-collision")) + se.mon_c11(v, reqs)
